@@ -418,4 +418,7 @@ theorem C05_source_shapes_match_model :
     (Generated.executorShapes.all fun e => modelShape e.1 == some (readersOf e.2, handlersOf e.2)) = true :=
   source_shapes_match_model
 
+/-- the current source folds names byte-wise only, as the model's `upper` does (regenerated on every run) -/
+theorem C05_source_ascii_case : factHolds "noUnicodeCaseFolding" = true := source_ascii_case
+
 end GoRedis
